@@ -134,7 +134,7 @@ def concretise(tokens, names, spelling, ws):
 
 
 PROVIDER_KINDS = ["sm_prop", "sm_method", "sm_attr", "model_method", "model_attr", "listener_method", "listener_prop",
-                  "helper_method"]
+                  "helper_method", "free_function"]
 
 
 DECLS = ["itself", "to", "from", "any", "any_or", "to_or"]
@@ -162,6 +162,7 @@ def build_machine(exprs, names, kinds, coro=(), decl="itself"):
     sm_attrs, model_attrs, lis_attrs = {}, {}, {}
     plain = []
     helper_names = []
+    free_names = []
     for n in NAMES:
         box[n] = 0
     for n in NAMES:
@@ -183,11 +184,36 @@ def build_machine(exprs, names, kinds, coro=(), decl="itself"):
             lis_attrs[real] = f
         elif kind == "listener_prop":
             lis_attrs[real] = property(f)
+        elif kind == "free_function":
+            # an entry that is exactly this name is given as a free FUNCTION of that name; the model happens to have a
+            # method of the same name that says the opposite (inside larger expressions the name is a machine method)
+            sm_attrs[real] = f
+            import re as _re
+            inside = any(isinstance(t, str) and t != real and _re.search(r"(?<![A-Za-z0-9_])" + _re.escape(real) + r"(?![A-Za-z0-9_])", t)
+                         for t, _e in exprs)
+            if not inside:      # (a name used inside an expression is looked up on every provider: keep that case apart)
+                del sm_attrs[real]
+                free_names.append((n, real))
+
+                def opposite(self_, *a, _n=n, **k):
+                    log.append("!" + _n)
+                    return not box[_n]
+                model_attrs[real] = opposite
         elif kind == "helper_method":
             # an entry that is exactly this name is given as a CALLABLE: the bound method of a helper object that keeps
             # the value in its own attributes (inside larger expressions the name resolves to a method of the machine)
             sm_attrs[real] = f
             helper_names.append((n, real))
+    if free_names:
+        def free(abstract, real):
+            def fn(*a, **k):
+                log.append(abstract)
+                return box[abstract]
+            fn.__name__ = real
+            fn.__qualname__ = real
+            return fn
+        table = {real: free(n, real) for n, real in free_names}
+        exprs = [((table[t] if isinstance(t, str) and t in table else t), e) for t, e in exprs]
     helper = None
     if helper_names:
         def hmethod(abstract):
@@ -321,6 +347,10 @@ def run(pid, tier, seed, replay):
         nonlocal evaluations
         names = dict(zip(NAMES, rng.sample(REAL_NAMES, 3)))
         kinds = {n: rng.choice(PROVIDER_KINDS) for n in NAMES}
+        if features.get("origin") == "guard_list" and rng.random() < 0.25:
+            # several entries of one list given as callables that all have the same __name__ (bound methods of helper
+            # objects, lambdas): what a callable IS decides, not what it is called
+            kinds = {n: "helper_method" for n in NAMES}
         coro = features.get("coro", ())
         concrete = [(concretise_text(t, names), e) for t, e in texts]
         # (F21: the very same entry - a name or an expression text - in cond and in unless of one transition)
